@@ -34,9 +34,20 @@ let line_of_transcript (t : z list list) : string =
   String.concat " | "
     (List.map (fun o -> String.concat " " (List.map (fun x -> string_of_int (int_of_z x)) o)) t)
 
-let () =
-  let domain = Sys.argv.(1) in
-  assert (domain = "world");
+(* usage: driver derive <cases>      (C18; one case per line, see SaveLoad/DeriveCodec.v)
+   output per case: the parts of [derive_line], separated by " | " *)
+let run_derive () =
+  let f = open_in Sys.argv.(2) in
+  (try
+     while true do
+       let l = List.map z_of_int (ints_of_line (input_line f)) in
+       print_string (line_of_transcript (derive_line l));
+       print_newline ()
+     done
+   with End_of_file -> ());
+  close_in f
+
+let run_world () =
   let fixed = Sys.argv.(2) <> "0" in
   let hf = open_in Sys.argv.(3) in
   let tf = open_in Sys.argv.(4) in
@@ -55,3 +66,9 @@ let () =
      done
    with End_of_file -> ());
   close_in hf; close_in tf
+
+let () =
+  match Sys.argv.(1) with
+  | "world" -> run_world ()
+  | "derive" -> run_derive ()
+  | d -> failwith ("unknown domain " ^ d)
